@@ -105,10 +105,22 @@ def check_texts(ctx, texts, specs, name, prop_lex, prop_front="C03"):
         ctx.validated += 1
         stoks, serr = norm_spec(o)
         dtoks, derr = norm_dump(evs)
-        cr = sv.crashed(se, code) or sv.crashed(hse, hcode)
+        # the parse-only run (hooked build, SEED_VERIF_MODE=parse) decides about the front end; the complete run
+        # of an accepted program may not terminate (`while true`): that is no front-end hang
+        accepted = any(e.get("ev") == "ast" for e in evs)
+        cr = sv.crashed(hse, hcode)
         if cr:
             ctx.violation("the front end crashed (%s) on %r" % (cr, t), script=t,
-                          detail={"stderr": se.decode(errors="replace")[-1500:], "exit": code}, prop="C03")
+                          detail={"stderr": hse.decode(errors="replace")[-1500:], "exit": hcode}, prop="C03")
+            continue
+        cr = sv.crashed(se, code)
+        if cr == "timeout" and accepted:
+            ctx.skip("accepted program that does not end within the time limit (not a front-end matter)")
+            cr = None
+        elif cr:
+            ctx.violation("the %s crashed (%s) on %r" % ("interpreter" if accepted else "front end", cr, t), script=t,
+                          detail={"stderr": se.decode(errors="replace")[-1500:], "exit": code},
+                          prop="C02" if accepted else "C03")
             continue
         if stoks != dtoks or serr != derr:
             k = next((j for j in range(min(len(stoks), len(dtoks))) if stoks[j] != dtoks[j]),
